@@ -371,7 +371,12 @@ def check_property_(pid, tier, seed):
         kind, f = field_of(d, o['label'])
         if f is None:
             return (o['label'],)
-        return (kind, f['ty']['k'], is_list(f), f.get('count') is not None, d['base'] in D.NATIVE, d['base'] > 64)
+        S = D.storage(d['base'])
+        lo = min(x for x, _ in D.ranges(f))
+        hi = max(x + n for x, n in D.ranges(f))
+        slot_end = lo + D.fcount(f) * D.fstride(f) if f.get('count') is not None else hi
+        return (kind, f['ty']['k'], is_list(f), f.get('count') is not None, d['base'] in D.NATIVE, d['base'] > 64,
+                D.total(f) == S, hi == d['base'], lo == 0, slot_end > S, D.total(f) in D.NATIVE)
     seen_k = {}
     for o in failing:
         seen_k.setdefault(klass(o), []).append(o)
